@@ -71,17 +71,28 @@ def content_relpath(algo, hexdigest):
 
 # --------------------------------------------------------------------------- parser
 
-def record_json(entry):
-    """The canonical text this reference writes for an index record (six fields)."""
-    return json.dumps({
-        "key": entry["key"], "integrity": entry["integrity"], "time": entry["time"],
-        "size": entry["size"], "metadata": entry["metadata"],
-        "raw_metadata": entry["raw_metadata"],
-    }, separators=(",", ":"), ensure_ascii=False)
+def record_json(entry, style=0):
+    """The text this reference writes for an index record.  style 0 is the canonical compact
+    six-field form; the other styles are equally conforming spellings a foreign writer may
+    produce (spaces, escaped non-ASCII, another field order, an extra field, raw_metadata left
+    out when it is null)."""
+    obj = [("key", entry["key"]), ("integrity", entry["integrity"]), ("time", entry["time"]),
+           ("size", entry["size"]), ("metadata", entry["metadata"]), ("raw_metadata", entry["raw_metadata"])]
+    if style == 0:
+        return json.dumps(dict(obj), separators=(",", ":"), ensure_ascii=False)
+    if style == 1:
+        return json.dumps(dict(obj), separators=(", ", ": "), ensure_ascii=True)
+    if style == 2:
+        return json.dumps(dict(reversed(obj)), separators=(",", ":"), ensure_ascii=False)
+    if style == 3:
+        return json.dumps(dict(obj + [("x-foreign", {"a": [1, 2]})]), separators=(",", ":"), ensure_ascii=False)
+    if style == 4 and entry["raw_metadata"] is None:
+        return json.dumps(dict(obj[:-1]), separators=(",", ":"), ensure_ascii=True)
+    return json.dumps(dict(obj), separators=(",", ":"), ensure_ascii=False)
 
 
-def frame_bytes(entry):
-    body = record_json(entry).encode("utf-8")
+def frame_bytes(entry, style=0):
+    body = record_json(entry, style).encode("utf-8")
     return b"\n" + hashlib.sha256(body).hexdigest().encode() + b"\t" + body
 
 
